@@ -252,7 +252,7 @@ func init() {
 			n := 0
 			for _, name := range []string{"(*vuego.Vue).evalElseIfChain", "(*vuego.Vue).evalVFor"} {
 				fn := p.MustFn(name)
-				nodesParam := fn.Params[3]
+				nodesParam := paramOf(fn, "nodes", 3, 5)
 				for _, site := range callsIn(fn) {
 					nm := calleeName(site.Common())
 					if nm != "helpers.HasAttr" && nm != "helpers.GetAttr" {
